@@ -73,9 +73,12 @@ fn not_in_with_null(q: &Query, db: &DbDef) -> bool {
 }
 
 fn run_case(db_def: &DbDef, q: &Query, model: &mut model::Model, rep: &mut Report) {
-    let sql = q.sql(db_def);
     let req = format!("query {} {}", db_def.sx(), q.sx());
     let case_id = format!("{} {}", db_def.sx(), q.sx());
+    // one case in four (when the meaning cannot change) is written with unqualified column names
+    let unq = q.unqualified_safe() && case_id.len() % 4 == 0;
+    let sql = if unq { q.sql_unqualified(db_def) } else { q.sql(db_def) };
+    rep.count(if unq { "names_unqualified" } else { "names_qualified" });
     let mut db = Db::new();
     db_def.load(&mut db);
     let out = db.query(&sql);
@@ -141,7 +144,7 @@ fn probes(rep: &mut Report) {
         "INSERT INTO p1 VALUES (1, 2), (3, NULL), (5, 6)",
         "INSERT INTO p2 VALUES (1, 2), (3, 9), (7, 6)",
     ];
-    let pairs: [(&str, &str, &str); 4] = [
+    let pairs: [(&str, &str, &str); 7] = [
         (
             "C01/unqualified-correlated-in",
             "SELECT a FROM p1 WHERE NOT (a IN (SELECT c FROM p2 WHERE d = b))",
@@ -162,8 +165,24 @@ fn probes(rep: &mut Report) {
             "SELECT a FROM p1 UNION ALL SELECT a FROM p1 WHERE a IN (SELECT c FROM p2 WHERE d = b)",
             "SELECT p1.a FROM p1 UNION ALL SELECT p1.a FROM p1 WHERE p1.a IN (SELECT p2.c FROM p2 WHERE p2.d = p1.b)",
         ),
+        (
+            "fixed-65d096d2",
+            "SELECT a, c FROM p1 LEFT JOIN p2 ON a = c WHERE d IS NULL",
+            "SELECT p1.a, p2.c FROM p1 LEFT JOIN p2 ON p1.a = p2.c WHERE p2.d IS NULL",
+        ),
+        (
+            "fixed-65d096d2",
+            "SELECT a, c FROM p1 LEFT JOIN p2 ON a = c WHERE COALESCE(d, 0) = 0",
+            "SELECT p1.a, p2.c FROM p1 LEFT JOIN p2 ON p1.a = p2.c WHERE COALESCE(p2.d, 0) = 0",
+        ),
+        (
+            "fixed-65d096d2",
+            "SELECT a, c FROM p2 RIGHT JOIN p1 ON a = c WHERE CASE WHEN d = 2 THEN 0 ELSE 1 END = 1",
+            "SELECT p1.a, p2.c FROM p2 RIGHT JOIN p1 ON p1.a = p2.c WHERE CASE WHEN p2.d = 2 THEN 0 ELSE 1 END = 1",
+        ),
     ];
     for (sig, unq, qual) in pairs.iter() {
+        let _ = sig;
         let mut db = Db::new();
         for s in setup.iter() {
             db.must(s);
@@ -179,7 +198,7 @@ fn probes(rep: &mut Report) {
         if !same {
             rep.fail(
                 FailKind::Oracle,
-                Some(sig),
+                None,
                 "unqualified column references change the answer of a query (vs the qualified spelling)",
                 &format!("{};\n{};\n  => {}\n{};\n  => {}", setup.join(";\n"), unq, a.brief(), qual, b.brief()),
             );
@@ -204,7 +223,16 @@ fn main() {
     for i in 0..n {
         let mut r = rng.fork();
         let max_rows = if args.quick() { 8 } else { 20 };
-        let db_def = gen_db(&mut r, 3, max_rows);
+        let mut db_def = gen_db(&mut r, 3, max_rows);
+        if i % 12 == 11 {
+            // large-table stream: one table of 100–400 rows (reaches the columnar / batched /
+            // parallel paths), the others at most 4 rows so that joins stay small
+            db_def = gen_db(&mut r, 3, 4);
+            let t = r.below(3) as usize;
+            let n = *r.pick(&[100usize, 101, 127, 128, 129, 200, 255, 256, 257, 300, 400]);
+            db_def.tables[t].rows = gen_rows(&mut r, &db_def.tables[t].schema, n);
+            rep.count("large_table_case");
+        }
         let g = QGen { db: &db_def, subqueries: true, force_from: None };
         let q = g.gen_query(&mut r);
         if i < 5 {
